@@ -918,6 +918,17 @@ Rock::Rebuild::useNewSlot(const SlotId slotId, const DbCellHeader &header)
     }
 
     case LoadingEntry::leLoaded: {
+        // A same-key slot older than the fully loaded (and validated) chain is
+        // a leftover of a replaced or purged version of this entry: Freed slots
+        // are not erased on disk, and the new version does not always reuse all
+        // of them. Such a slot cannot belong to the loaded chain; ignore it.
+        if (header.version < le.version &&
+                sd->map->peekAtEntry(fileno).sameKey(key)) {
+            freeUnusedSlot(slotId, true);
+            ++counts.dupcount;
+            break;
+        }
+
         // either the previously loaded chain or this slot is stale;
         // be conservative and ignore both (and any future ones)
         le.state(LoadingEntry::leCorrupted);
